@@ -222,6 +222,13 @@ func (s *Service) aggregateAttestation(ctx context.Context,
 		}
 		return
 	}
+	if aggregateAttestation.Data == nil || aggregateAttestation.AggregationBits.Len() == 0 {
+		errCh <- &aggregateAttestationError{
+			provider: name,
+			err:      errors.New("aggregate attestation without data or aggregation bits"),
+		}
+		return
+	}
 
 	score := s.scoreAggregateAttestation(ctx, name, aggregateAttestation)
 	respCh <- &aggregateAttestationResponse{
